@@ -4177,21 +4177,27 @@ class State:
         match self.street.opening:
             case Opening.POSITION:
                 blinds_or_straddles = self.blinds_or_straddles
+                poster_indices = list(self.player_indices)
 
                 if self.player_count == 2:
                     blinds_or_straddles = blinds_or_straddles[::-1]
+                    poster_indices.reverse()
 
-                max_bet_index = max(
-                    self.player_indices,
-                    key=lambda i: (
-                        (
-                            self.bets[i]
-                            * max(sign(blinds_or_straddles[i]), 0),
-                            i,
-                        )
-                    ),
-                )
-                self.opener_index = (max_bet_index + 1) % self.player_count
+                amounts = [
+                    self.bets[i] * max(sign(blinds_or_straddles[i]), 0)
+                    for i in self.player_indices
+                ]
+
+                if any(amounts):
+                    max_bet_index = max(
+                        poster_indices,
+                        key=lambda i: (amounts[i], poster_indices.index(i)),
+                    )
+                    self.opener_index = (
+                        (max_bet_index + 1) % self.player_count
+                    )
+                else:
+                    self.opener_index = 0
             case Opening.LOW_CARD:
                 min_up_cards = [
                     min_or_none(
